@@ -304,7 +304,7 @@ func m1(ctx *core.Ctx) {
 	} else {
 		self["reference"] = fmt.Sprintf("no violation, %d (position, string) states", res.Distinct)
 	}
-	for _, d := range []struct{ dev, inv string }{{"mapkey_unescaped", "RoundTrip"}, {"bs_raw", "RoundTrip"}, {"ls_raw", "RoundTrip"}, {"lt_raw", "Safe"}} {
+	for _, d := range []struct{ dev, inv string }{{"mapkey_unescaped", "RoundTrip"}, {"bs_raw", "RoundTrip"}, {"ls_raw", "RoundTrip"}, {"lt_raw", "Safe"}, {"post_pass_rewrites_output", "RoundTrip"}} {
 		res, err := ctx.RunTLC(core.TLCOpts{Module: "SoyJsLitMC", Cfg: "CONSTANTS\n Dev = {\"" + d.dev + "\"}\n MaxLen = 3\n" + base,
 			Workers: 1, Timeout: 3 * time.Minute, Label: "M1 dev:" + d.dev})
 		if err != nil {
@@ -315,6 +315,22 @@ func m1(ctx *core.Ctx) {
 			ctx.ToolError("M1 dev %s: expected a violation of %s, got %q (vacuous invariant?)", d.dev, d.inv, res.Violated)
 		}
 		self["dev:"+d.dev] = "violates " + res.Violated
+	}
+	for _, d := range []struct{ dev, inv string }{{"", ""}, {"\"let_keeps_soy_name\"", "NoHazard"}} {
+		res, err := ctx.RunTLC(core.TLCOpts{Module: "SoyJsIdent", Cfg: "CONSTANTS\n Dev = {" + d.dev + "}\n MaxDecls = 3\n MaxDepth = 3\nINIT Init\nNEXT Next\nINVARIANTS NoHazard Distinct\nCHECK_DEADLOCK FALSE\n",
+			Workers: 1, Timeout: 3 * time.Minute, Label: "M1 identifiers " + d.dev})
+		if err != nil {
+			ctx.ToolError("M1 identifiers %s: %v", d.dev, err)
+			continue
+		}
+		if res.Violated != d.inv {
+			ctx.ToolError("M1 identifiers Dev={%s}: expected %q, TLC says %q", d.dev, d.inv, res.Violated)
+		}
+		if d.dev == "" {
+			self["identifiers:reference"] = fmt.Sprintf("no violation, %d states", res.Distinct)
+		} else {
+			self["identifiers:dev:let_keeps_soy_name"] = "violates " + res.Violated
+		}
 	}
 	ctx.Extra["m1_selftest"] = self
 }
@@ -331,10 +347,16 @@ func generate(ctx *core.Ctx) []*Program {
 	all = append(all, ASCII(ctx.Thorough())...)
 	all = append(all, Specials...)
 	all = append(all, "\x00", "a\x00b")
+	lookalikes := Lookalikes(ctx.Thorough())
+	lookPos := map[string]bool{"rawtext": true, "strlit": true, "mapkey": true, "mapvalue": true, "global-string": true, "global-mapkey": true,
+		"msg-text": true, "msg-translation": true, "css-name": true, "css-name-after-var": true, "css-prefix": true, "param-value": true, "let-value": true, "literal": true}
 	long := LongStrings(ctx.Thorough())
-	core1 := append([]string{}, Words(1)...)
-	core1 = append(core1, `'"\`, "</script>", "\n'", "  ", "a b", "{}", "//", `\n`, "\U000E0001", "\x00", "\x7f", `\"`)
+	// the strings every (position, context) pair sees; the quick tier takes the sharpest ones
+	core1 := []string{"'", `"`, `\`, "\n", string(rune(0x2028)), "<", "a", string(rune(0x1F600)),
+		`'"\`, "</script>", "{}", `\n`, "\U000E0001", "\x00"}
 	if ctx.Thorough() {
+		core1 = append(core1, Words(1)...)
+		core1 = append(core1, "\n'", "  ", "a b", "//", "\x7f", `\"`)
 		core1 = append(core1, Words(2)...)
 		core1 = append(core1, Specials...)
 	}
@@ -359,6 +381,11 @@ func generate(ctx *core.Ctx) []*Program {
 		}
 		for _, s := range long {
 			add(pos, top, s)
+		}
+		if lookPos[pos.name] || ctx.Thorough() {
+			for _, s := range lookalikes {
+				add(pos, top, s)
+			}
 		}
 		for _, w := range wrappers[1:] {
 			for _, s := range core1 {
@@ -389,6 +416,57 @@ func generate(ctx *core.Ctx) []*Program {
 			for _, w := range wrappers {
 				if w.msg || w.name == "top" || w.name == "foreach" || w.name == "log" || w.name == "between-quotes" {
 					if p, ok := BuildGlobalKind(id, k, parsed, w); ok {
+						progs = append(progs, p)
+						id++
+					}
+				}
+			}
+		}
+	}
+	// round 4: indexed references after other operands, in every expression context
+	idxStrings := []string{"a", "'", `"`, "\\", "\n", "<", string(rune(0x2028)), string(rune(0x1F600)), "\\" + "u003D=", "]", "[", "$arr[$i]"}
+	idxWraps := []string{"top", "if", "foreach", "let-content", "param-content", "msg", "switch-case"}
+	if ctx.Thorough() {
+		idxStrings = append(idxStrings, core1...)
+	}
+	for _, f := range exprForms {
+		for _, c := range exprContexts {
+			for _, w := range wrappers {
+				use := ctx.Thorough()
+				for _, n := range idxWraps {
+					if w.name == n {
+						use = true
+					}
+				}
+				if !use {
+					continue
+				}
+				for si, s := range idxStrings {
+					if w.name != "top" && !ctx.Thorough() && si > 3 {
+						break
+					}
+					if p, ok := BuildIndexed(id, f, c, w, s); ok {
+						progs = append(progs, p)
+						id++
+					}
+				}
+			}
+		}
+	}
+	for _, kind := range []string{"range-args", "plural-subject", "if-arith"} {
+		for _, w := range wrappers {
+			if p, ok := BuildIndexedNumeric(id, kind, w); ok {
+				progs = append(progs, p)
+				id++
+			}
+		}
+	}
+	// round 4: identifier hazards
+	for _, use := range identUses {
+		for _, name := range append(append([]string{}, HazardNames...), "<root>", "plain") {
+			for _, w := range wrappers {
+				if w.name == "top" || (w.name == "foreach" && (use == "let-value" || use == "foreach-var")) || (ctx.Thorough() && (w.name == "if" || w.name == "let-content" || w.name == "nested")) {
+					if p, ok := BuildIdent(id, use, name, w); ok {
 						progs = append(progs, p)
 						id++
 					}
@@ -512,6 +590,29 @@ func runBatch(ctx *core.Ctx, pool *jsrun.Pool, batch []*Program, st *stats) {
 	}
 }
 
+// nameClass says why an author-chosen name is hazardous.
+func nameClass(n string) string {
+	switch n {
+	case "__proto__":
+		return "__proto__"
+	case "constructor", "toString", "hasOwnProperty", "valueOf", "prototype", "length", "name":
+		return "object-prototype-member"
+	case "output", "soy", "goog", "opt_data", "opt_sb", "opt_ijData", "JSON", "Math", "Object", "String", "console":
+		return "runtime-name"
+	case "plain":
+		return "plain"
+	}
+	if strings.HasPrefix(n, "q") || strings.HasPrefix(n, "x") || strings.HasPrefix(n, "n") || strings.HasPrefix(n, "my") || strings.HasPrefix(n, "ab") || strings.HasPrefix(n, "shop") {
+		for _, h := range HazardNames {
+			if h == n {
+				return "reserved-word"
+			}
+		}
+		return "namespace-root"
+	}
+	return "reserved-word"
+}
+
 // runeClass names the class of a character for signatures.
 func runeClass(r rune) string {
 	switch {
@@ -614,6 +715,10 @@ func classify(ctx *core.Ctx, pool *jsrun.Pool, st *stats) {
 	for _, f := range st.failures {
 		p := f.Program
 		feature := "pos=" + p.Class + "," + f.Kind
+		if p.Class == "identifier" {
+			// the author's NAME is the hazard: say which use and which kind of name
+			feature = "pos=identifier,use=" + strings.TrimPrefix(p.Pos, "ident-") + ",name=" + nameClass(p.S) + "," + f.Kind
+		}
 		if p.Class == "map-key" && p.S == "__proto__" {
 			// JavaScript object literals treat this one key as the prototype setter
 			feature = "pos=map-key,key=__proto__," + f.Kind
